@@ -9,7 +9,7 @@ ops (hex tokens, `-` = empty):
   blk <height> <hash> <parent> <quick 0|1>            -> ok      new block, clears transactions and pre-state
   tx <hash> <eth> <from> <to> <fee> <rty> <txres> <info> <feeinfo> <coins>   -> ok
         coins: n | t:<amt> | e:<amt> | w:<amt> | g:<amt>
-  pre cnt <addr> <n> | pre recv <addr> <n> | pre fee <hash> <f> <c> | pre raw <cnt|recv|fee> <arg> <hex>  -> ok
+  pre cnt <addr> <n> | pre recv <addr> <n> | pre fee <hash> <f> <c> | pre stx <hash[:8]> <value> | pre raw <cnt|recv|fee> <arg> <hex>  -> ok
   add                 -> KV list of blockAdd on the pre-state, or `error`
   del                 -> KV list of blockDel on the state after `add`
   chk                 -> `same` when every key touched by add/del is observationally restored, else the keys that differ
@@ -109,6 +109,10 @@ def step (s : St) (line : String) : St × String :=
     match fromHex h, parseInt? f, parseInt? c with
     | some h, some f, some c => ({ s with pre := set s.pre (Key.totalFee h) (.fee f c) }, "ok")
     | _, _, _ => (s, "bad-op")
+  | ["pre", "stx", h8, v] =>
+    match fromHex h8, fromHex v with
+    | some h8, some v => ({ s with pre := set s.pre (Key.stx h8) (.blob v) }, "ok")
+    | _, _ => (s, "bad-op")
   | ["pre", "raw", kind, arg, v] =>
     match fromHex arg, fromHex v with
     | some arg, some v =>
